@@ -702,23 +702,38 @@ func runTAB05(p *Prog, r *RuleRun) {
 		}
 	}
 	// paired primitives
+	// names called by recvT.m, following calls to other methods of recvT (private helpers such as encoder.write)
 	calls := func(recvT, m string) map[string]bool {
 		out := map[string]bool{}
-		fd := findFuncDecl(pk, recvT+"."+m)
-		if fd == nil {
-			return out
-		}
-		ast.Inspect(fd.Body, func(n ast.Node) bool {
-			if ce, ok := n.(*ast.CallExpr); ok {
-				switch f := ce.Fun.(type) {
-				case *ast.SelectorExpr:
-					out[f.Sel.Name] = true
-				case *ast.Ident:
-					out[f.Name] = true
-				}
+		seen := map[string]bool{}
+		var visit func(m string)
+		visit = func(m string) {
+			if seen[m] {
+				return
 			}
-			return true
-		})
+			seen[m] = true
+			fd := findFuncDecl(pk, recvT+"."+m)
+			if fd == nil || fd.Body == nil {
+				return
+			}
+			ast.Inspect(fd.Body, func(n ast.Node) bool {
+				if ce, ok := n.(*ast.CallExpr); ok {
+					switch f := ce.Fun.(type) {
+					case *ast.SelectorExpr:
+						out[f.Sel.Name] = true
+						if findFuncDecl(pk, recvT+"."+f.Sel.Name) != nil {
+							if tv, ok := pk.TypesInfo.Types[f.X]; ok && strings.HasSuffix(strings.TrimPrefix(tv.Type.String(), "*"), "."+recvT) {
+								visit(f.Sel.Name)
+							}
+						}
+					case *ast.Ident:
+						out[f.Name] = true
+					}
+				}
+				return true
+			})
+		}
+		visit(m)
 		return out
 	}
 	// time.MarshalBinary is variable length (15 bytes, 16 for zone offsets with seconds) and the field is the
